@@ -745,7 +745,7 @@ func (h *hist) block() bool {
 		hists[r.name] = hs
 		obs[r.name] = r.n.Obs()
 	}
-	if h.ref.n.Chain.Head.Height() != height && os.Getenv("VERIF_DIAG") != "" {
+	if h.ref.n.Chain.Head.Height() != height {
 		// diagnosis: is the proposal path itself nondeterministic?  re-propose on the same head many times
 		roots := map[string]int{}
 		for i := 0; i < 60; i++ {
